@@ -191,12 +191,54 @@ fn mid_send_cases(thorough: bool, n: &mut usize) {
     }
 }
 
+/// (d) the receiving end was moved into a value whose serialisation then failed: the send returned an error, nothing was
+/// queued, the program holds no handle — the receiving end exists nowhere, so sends to it must fail (and a large one must not
+/// block), also when issued from the thread that made the failed send
+fn lost_in_failed_serialisation_cases(n: &mut usize) {
+    use crate::value::{Dyn, Value};
+    use ipc_channel::ipc;
+    for (same_thread, big) in [(true, false), (false, false), (true, true), (false, true)] {
+        let mut c = Case::new(format!("vanish-failedser-{}", *n));
+        let (tx, rx) = ipc::channel::<Vec<u8>>().unwrap();
+        let (ctx, crx) = ipc::channel::<Dyn>().unwrap();
+        let v = Value::Tup(vec![Value::Receiver(0, std::cell::RefCell::new(Some(rx.to_opaque()))), Value::Fail]);
+        if ctx.send(Dyn(v)).is_ok() {
+            c.fail("a send whose serialisation fails reported success".into());
+        }
+        let len = if big { 4usize << 20 } else { 64 };
+        let probe = move || {
+            // the first sends may still be absorbed by nothing: there is no queue; every one must fail
+            let mut oks = 0;
+            for _ in 0..20 {
+                if tx.send(vec![7u8; len]).is_ok() {
+                    oks += 1;
+                }
+            }
+            oks
+        };
+        let r = if same_thread { crate::util::with_watchdog(10, probe) } else { std::thread::spawn(move || crate::util::with_watchdog(10, probe)).join().unwrap() };
+        match r {
+            Some(0) => {},
+            Some(k) => c.fail(format!("{} of 20 sends of {} bytes reported success although the receiver was consumed by a failed send (it exists nowhere)", k, len)),
+            None => c.fail(format!("sends of {} bytes to a receiver consumed by a failed send blocked for more than 10 s", len)),
+        }
+        drop(crx);
+        c.pair("noop".into(), "ok".into());
+        c.nontrivial = true;
+        c.key = format!("failedser:{}:{}", same_thread, big);
+        c.tags.push("when=consumed_by_failed_serialisation".into());
+        c.emit();
+        *n += 1;
+    }
+}
+
 pub fn run(args: &[String]) {
     let thorough = arg(args, "--tier").as_deref() == Some("thorough");
     let max = OsIpcSender::get_max_fragment_size();
     let lens: Vec<usize> = if thorough { vec![0, 10, max, max + 1, 3 * max, 20 * max, 4 << 20] } else { vec![10, max + 1, 4 << 20] };
     let mut n = 0;
     mid_send_cases(thorough, &mut n);
+    lost_in_failed_serialisation_cases(&mut n);
     for &len in &lens {
         for natt in [0usize, 2] {
             // (a) receiver dropped before the send
